@@ -109,6 +109,9 @@ func (s *Shared) Plans(doc *ast.QueryDocument, op Op, d int, withPanic, thorough
 					continue
 				}
 				for _, alt := range alternatives(pos, withPanic, thorough) {
+					if !s.Feasible(pos, alt) {
+						continue
+					}
 					np := Plan{}
 					for k, v := range base {
 						np[k] = v
